@@ -71,7 +71,7 @@ def check_cloud(case, ctx):
     own = vd.inside(pcoords, got)
     ctx.check(np.asarray(own).shape == e.shape and np.all(own), "some points are outside their own bounding region")
     # closed box predicate, element-wise, same shape, bool dtype
-    res = vd.inside(pcoords, region)
+    res = vd.inside(pcoords, build.plain(tuple(region), build.plain_flag(case)))
     res = np.asarray(res)
     ctx.check(res.shape == e.shape, "inside returned shape %s for input shape %s", res.shape, e.shape)
     ctx.check(res.dtype == bool, "inside returned dtype %s", res.dtype)
@@ -171,7 +171,8 @@ def check_pad(case, ctx):
     region, pad = case["region"], case["pad"]
     pn, pe = (pad, pad) if not isinstance(pad, list) else pad
     arg = pad if not isinstance(pad, list) else tuple(pad)
-    got = vd.pad_region(tuple(region), arg)
+    ints = build.plain_flag(case)
+    got = vd.pad_region(build.plain(tuple(region), ints), build.plain(arg, ints))
     ctx.check(len(got) == 4, "pad_region must return 4 values")
     exp = (region[0] - pe, region[1] + pe, region[2] - pn, region[3] + pn)
     ctx.check(tuple(float(v) for v in got) == exp, "pad_region(%r, %r) = %r, expected %r (west/east move by the east pad, south/north by the north pad)",
